@@ -19,6 +19,7 @@ RULE = ("histories of 4..14 events over {contact reinstalls with a fresh identit
         "server double to quiescence; every create_session / handleEncMessage / encrypt of the observer is one model event; "
         "stream 'author': every chat shape x participant x envelope kind: the real getAuthor against the model's author. distinct = distinct history.")
 RULE += (" Histories with 'fault' events: the n-th statement of the observer's store fails once (database is locked) when keys / messages arrive; after a fault only the safety clauses are checked.")
+RULE += (" Histories with 'revert' events: the contact returns to an earlier install (the identity it had before).")
 ASSUMPTIONS = ["python-axolotl's SessionBuilder refuses an identity the store does not trust and saves the identity it accepts (exercised, not modelled)",
                "an install that was replaced never comes back (restoring an old identity would revive archived ratchet states, which the property does not speak about)"]
 
@@ -147,6 +148,13 @@ def cases(chk):
                                                   ["reinstall", 1], ["recv", 1, 1]]},
         {"auto": False, "contacts": 1, "events": [["recv", 0], ["reinstall", 0], ["recv", 0], ["auto", 1], ["recv", 0], ["reinstall", 0], ["recv", 0], ["auto", 0], ["reinstall", 0], ["recv", 0]]},
     ]
+    # the contact goes BACK to an identity it had before (a restored backup): with automatic trust off that is a changed identity like any other
+    corpus += [
+        {"auto": True, "contacts": 1, "events": [["recv", 0], ["reinstall", 0], ["recv", 0], ["auto", 0], ["revert", 0], ["recv", 0], ["send", 0], ["notify", 0], ["send", 0]]},
+        {"auto": True, "contacts": 1, "events": [["send", 0], ["reinstall", 0], ["send", 0], ["auto", 0], ["revert", 0], ["send", 0], ["recv", 0], ["restart"], ["recv", 0]]},
+        {"auto": False, "contacts": 1, "events": [["send", 0], ["recv", 0], ["reinstall", 0], ["send", 0], ["recv", 0], ["revert", 0], ["recv", 0], ["send", 0], ["reinstall", 0], ["revert", 0], ["send", 0]]},
+        {"auto": True, "contacts": 1, "events": [["recv", 0], ["reinstall", 0], ["recv", 0], ["revert", 0], ["recv", 0], ["send", 0], ["revert", 0], ["auto", 0], ["revert", 0], ["send", 0], ["recv", 0]]},
+    ]
     # whose pin an incoming stanza is checked against: every chat shape x participant present / absent x envelope kind
     for chat in ("4915200002@s.whatsapp.net", "4915200002-1400000000@g.us", "status@broadcast", "1500000099@broadcast", "4915200003@s.whatsapp.net"):
         for part in (None, "4915200002@s.whatsapp.net", "4915200003@s.whatsapp.net"):
@@ -175,10 +183,10 @@ def cases(chk):
         nc = r.choice([1, 1, 2])
         evs = []
         for _i in range(r.randint(4, 14)):
-            k = r.choice(["send", "send", "recv", "recv", "reinstall", "reinstall", "notify", "restart", "auto"])
+            k = r.choice(["send", "send", "recv", "recv", "reinstall", "reinstall", "notify", "restart", "auto", "revert"])
             if k == "recv" and r.random() < 0.4:
                 evs.append([k, r.randrange(nc), r.choice([1, 2])])
-            elif k in ("send", "recv", "reinstall", "notify"):
+            elif k in ("send", "recv", "reinstall", "notify", "revert"):
                 evs.append([k, r.randrange(nc)])
             elif k == "auto":
                 evs.append([k, r.randrange(2)])
@@ -237,6 +245,26 @@ class World(object):
         self.srv.add_client(c)
         c.connect()
         self.quiesce()
+
+    def revert(self, ci):
+        """the contact goes back to an EARLIER install (a restored backup, the old phone switched on again): the same identity as before, which
+        the server learns from that install's next key upload"""
+        cur = self.installs[ci][-1]
+        olds = [c for c in self.installs[ci] if c is not cur and c.own_identity() != cur.own_identity()]
+        if not olds:
+            return False
+        old = olds[-1]
+        cur.kill_process()
+        old.boot_process()
+        self.srv.add_client(old)
+        old.connect()
+        self.quiesce()
+        self.srv.sid += 1
+        self.srv.push(old.jid, sim.N("notification", {"id": "srv-c%d" % self.srv.sid, "from": "s.whatsapp.net", "type": "encrypt", "t": str(self.srv.t)},
+                                     [sim.N("count", {"value": "0"})]))
+        self.quiesce()
+        self.installs[ci].append(old)
+        return True
 
     def key_no(self, ci, ident):
         """identity bytes (33-byte serialised form) -> model key number of that contact (install index + 1)"""
@@ -329,10 +357,13 @@ def run_case(chk, stream, case):
             _DEPTH["calls"] = 0
             pins_before = [A.stored_identity(CONTACT_PHONES[ci]) for ci in range(case["contacts"])]
             expect_at = None       # (client, body) that must be delivered exactly once
-            if has_faults and kind in ("restart", "reinstall", "auto"):
+            if has_faults and kind in ("restart", "reinstall", "auto", "revert"):
                 sqlfault.disarm()      # (faults are placed at message / key events: a store that cannot be opened is another matter)
             if kind == "reinstall":
                 w.reinstall(ev[1])
+            elif kind == "revert":
+                if w.revert(ev[1]):
+                    chk.hit("ev:revert-done")
             elif kind == "send":
                 ci = ev[1]
                 w.nmsg += 1
@@ -471,8 +502,11 @@ def run_case(chk, stream, case):
                 pin = A.stored_identity(CONTACT_PHONES[ci])
                 cur_is_pinned = pin is not None and pin == cur.own_identity()
                 got_n = sum(1 for e in client.seen("message") if getattr(e, "getBody", lambda: None)() == body)
+                # (after a storage fault the first identity of a contact may have failed to be stored at all while its session was: nothing is
+                # remembered then, and nothing the property says about a DIFFERENT identity applies — the fault's fair outcome)
+                nothing_pinned_after_fault = faulted and pin is None
                 if direction == "out":
-                    if not cur_is_pinned and got_n:
+                    if not cur_is_pinned and got_n and not nothing_pinned_after_fault:
                         fails.append(oracle("C17:message-readable-by-unpinned-identity", "%s: the observer's message %r was delivered to install #%d of contact %d "
                                             "although identity #%s is the remembered one" % (ctx, body, len(w.installs[ci]), ci, w.key_no(ci, pin))))
                         break
@@ -486,7 +520,7 @@ def run_case(chk, stream, case):
                         fails.append(oracle("C17:message-to-pinned-identity-lost", "%s: message %r to the remembered identity delivered %d times" % (ctx, body, got_n)))
                         break
                 else:
-                    if not cur_is_pinned and got_n:
+                    if not cur_is_pinned and got_n and not nothing_pinned_after_fault:
                         fails.append(oracle("C17:message-accepted-from-unpinned-identity", "%s: message %r from install #%d of contact %d was delivered although identity #%s "
                                             "is the remembered one" % (ctx, body, len(w.installs[ci]), ci, w.key_no(ci, pin))))
                         break
